@@ -4,6 +4,11 @@ Use of this source code is governed by MIT license that can be found in the LICE
 */
 package main
 
+import "os"
+
 func main() {
-	rootCmd.Execute()
+	// an unknown option or subcommand is reported by cobra; it must not look like a successful run
+	if err := rootCmd.Execute(); err != nil {
+		os.Exit(1)
+	}
 }
